@@ -22,6 +22,7 @@ import (
 	"go/token"
 	"os"
 	"path/filepath"
+	"regexp"
 	"sort"
 	"strconv"
 	"strings"
@@ -139,12 +140,25 @@ func main() {
 			}
 			changed = true
 		}
+		var buf bytes.Buffer
+		if changed {
+			if err := (&printer.Config{Mode: printer.UseSpaces | printer.TabIndent, Tabwidth: 8}).Fprint(&buf, fset, f); err != nil {
+				return err
+			}
+		} else {
+			buf.Write(src)
+		}
+		// the library's direct line to the runtime allocator: memory it asks for WITHOUT zeroing is
+		// filled with garbage (what recycled memory holds is an environment answer the harness owns)
+		if rel == "internal/reflect" && mallocRe.Match(buf.Bytes()) {
+			nb := mallocRe.ReplaceAll(buf.Bytes(), []byte(mallocShim))
+			buf.Reset()
+			buf.Write(nb)
+			changed = true
+			dirtyMalloc = true
+		}
 		if !changed {
 			return nil
-		}
-		var buf bytes.Buffer
-		if err := (&printer.Config{Mode: printer.UseSpaces | printer.TabIndent, Tabwidth: 8}).Fprint(&buf, fset, f); err != nil {
-			return err
 		}
 		dst := filepath.Join(*out, "rewritten", strings.ReplaceAll(strings.TrimPrefix(path, *repo+"/"), "/", "__"))
 		os.MkdirAll(filepath.Dir(dst), 0o755)
@@ -241,6 +255,28 @@ func collectVars(fset *token.FileSet, f *ast.File, rel string, src []byte) []pkg
 	}
 	return r
 }
+
+var dirtyMalloc bool
+
+var mallocRe = regexp.MustCompile(`//go:linkname mallocgc runtime\.mallocgc\nfunc mallocgc\(size uintptr, typ uintptr, needzero bool\) unsafe\.Pointer\n`)
+
+const mallocShim = `//go:linkname verifRuntimeMallocgc runtime.mallocgc
+func verifRuntimeMallocgc(size uintptr, typ uintptr, needzero bool) unsafe.Pointer
+
+// VerifDirtyMalloc makes memory obtained without zeroing hold garbage (0xA5), as recycled memory may.
+var VerifDirtyMalloc = true
+
+func mallocgc(size uintptr, typ uintptr, needzero bool) unsafe.Pointer {
+	p := verifRuntimeMallocgc(size, typ, needzero)
+	if !needzero && VerifDirtyMalloc && size > 0 {
+		b := unsafe.Slice((*byte)(p), size)
+		for i := range b {
+			b[i] = 0xA5
+		}
+	}
+	return p
+}
+`
 
 // isDescMap recognises the process-wide descriptor map (a 512 KB array of slots created by a
 // zero-returning constructor) by its initialiser, whatever the variable is called.
